@@ -220,7 +220,8 @@ def arburg(X, order, criteria=None):
     if criteria:
         from spectrum import Criteria
         crit = Criteria(name=criteria, N=N)
-        crit.data = rho
+        # criterion of the order-0 model (white noise of variance rho)
+        crit(rho=rho, k=0)
         logging.debug('Step {}. old criteria={} new one={}.  rho={}'.format(
                 0, crit.old_data, crit.data, rho))
 
